@@ -398,4 +398,14 @@ theorem runFile_nf (name : String) (ss : List Stmt) (s : St)
   have e2 : fixLast (nf (stmts (pro name s) ss)) = nf (fixLast (stmts (pro name s) ss)) := rfl
   rw [e2, trapCallback_nf _ (by simpa [trapOk, fixLast] using t1)]
 
+/-- a runner state as `New`/`Reset` leave it (`exit`, `lastExit`, `handlingTrap`, `filename` are
+    classified `zeroed` in Part A) -/
+def Fresh (s : St) : Prop :=
+  s.exit = .zero ∧ s.lastExit = .zero ∧ s.handlingTrap = false ∧ s.filename = ""
+
+theorem fresh_inv {s0 : St} (h : Fresh s0) : Inv s0 ∧ s0.filename = "" ∧ pro "" s0 = s0 := by
+  obtain ⟨h1, h2, h3, h4⟩ := h
+  refine ⟨⟨h3, by rw [h1, h2], by rw [h1]; rfl, fun _ => h1⟩, h4, ?_⟩
+  cases s0; simp_all [pro]
+
 end ShVerif.C30
